@@ -968,3 +968,30 @@ Definition abs_lev (ev : lcol_event) : logs_event :=
   | LcPanic => LvPanic
   | LcErr t => LvErr (if t then e400 "decoder" else e_plain "decoder")
   end.
+
+(* request-context values that are type-asserted WITHOUT the comma-ok form, and every place that stores them: the
+   stored expressions have the asserted static type (dsn, meta := strings.Clone(header): string; TTLDays := uint16(0);
+   nodeName := svc.GetNodeName(): string; `var precision time.Duration`) -- read once, pinned by text: a changed
+   writer or a new asserted read falsifies the equality and has to be read again *)
+Definition ctx_reads_model : list (string * string * string) := [
+  ("DSN", "controller/middleware.go", "string");
+  ("META", "utils/unmarshal/builder.go", "string");
+  ("TTL_DAYS", "utils/unmarshal/builder.go", "uint16");
+  ("node", "controller/builder.go", "string");
+  ("precision", "utils/unmarshal/influxUnmarshal.go", "time.Duration")].
+Definition ctx_writers_model : list (string * string * string) := [
+  ("DSN", "controller/middleware.go", "dsn");
+  ("META", "controller/middleware.go", "meta");
+  ("TTL_DAYS", "controller/middleware.go", "TTLDays");
+  ("node", "controller/middleware.go", "nodeName");
+  ("node", "controller/middleware.go", "svc.GetNodeName()");
+  ("precision", "controller/insertController.go", "precision")].
+Fixpoint triples_eqb (a b : list (string * string * string)) : bool :=
+  match a, b with
+  | [], [] => true
+  | (x, y, z) :: r, (x', y', z') :: r' => String.eqb x x' && String.eqb y y' && String.eqb z z' && triples_eqb r r'
+  | _, _ => false
+  end.
+Definition ctx_contract_ok (writes reads : list (string * string * string)) : bool :=
+  triples_eqb reads ctx_reads_model
+  && triples_eqb (filter (fun w => existsb (fun r => String.eqb (fst (fst w)) (fst (fst r))) ctx_reads_model) writes) ctx_writers_model.
